@@ -892,9 +892,16 @@ fn run_once(case: &J, tr: u64, enc2: bool) -> Run {
                             Ok(o) => o,
                             Err(e) => Obs { valid: Err(e), f: vec![], g: vec![], m: vec![], sites: vec![], names: vec![] },
                         };
+                        let mut second: Option<Vec<u8>> = None;
                         let (same2, valid2) = if enc2 {
                             match guarded(|| module.encode()) {
-                                Ok(o2) => (o2 == out, validate(&o2).is_ok()),
+                                Ok(o2) => {
+                                    let r = (o2 == out, validate(&o2).is_ok());
+                                    if !r.0 {
+                                        second = Some(o2);
+                                    }
+                                    r
+                                }
                                 Err(_) => (false, false),
                             }
                         } else {
@@ -906,6 +913,16 @@ fn run_once(case: &J, tr: u64, enc2: bool) -> Run {
                             "f":obs.f,"g":obs.g,"m":obs.m,"sites":sites,"names":obs.names,
                             "same2":same2,"valid2":valid2,"nd":false}));
                         run.outs.push(Some(out));
+                        // a second encoding that differs is an encoded module of its own: it is judged like the first
+                        if let Some(o2) = second {
+                            if let Ok(obs2) = alpha(&fam.reg, &o2) {
+                                let sites2: Vec<J> = obs2.sites.iter().map(|(s, t)| json!({"s":s,"tok":t})).collect();
+                                run.events.push(json!({"t":"encode","tr":tr,"panic":false,"second":true,
+                                    "valid":obs2.valid.is_ok(),"err":obs2.valid.clone().err().unwrap_or_default(),
+                                    "f":obs2.f,"g":obs2.g,"m":obs2.m,"sites":sites2,"names":obs2.names,
+                                    "same2":true,"valid2":true,"nd":false}));
+                            }
+                        }
                     }
                 }
                 continue;
